@@ -225,10 +225,22 @@ def leanchecker(prop):
 # Lean driver
 
 
+LEAN_SHARD_TIMEOUT = int(os.environ.get("VERIF_LEAN_TIMEOUT", "240"))
+
+
 def _lean_driver_one(lines, timeout):
+    """one interpreter run over `lines`.  A run that exceeds the time limit is bisected: a single line on
+    which the model does not terminate in time is answered with an error object (which every judge treats as
+    a model/implementation disagreement), so a pathological input cannot hang the check."""
     inp = "\n".join(json.dumps(l, separators=(",", ":")) for l in lines) + "\n"
     main = os.environ.get("VERIF_MAIN", "Main.lean")  # development: a private driver file
-    r = run(["lake", "env", "lean", "--run", main], cwd=LEAN_DIR, timeout=timeout, inp=inp)
+    try:
+        r = run(["lake", "env", "lean", "--run", main], cwd=LEAN_DIR, timeout=min(timeout, LEAN_SHARD_TIMEOUT), inp=inp)
+    except subprocess.TimeoutExpired:
+        if len(lines) == 1:
+            return [{"error": f"model evaluation exceeded {LEAN_SHARD_TIMEOUT} s on this input"}]
+        mid = len(lines) // 2
+        return _lean_driver_one(lines[:mid], timeout) + _lean_driver_one(lines[mid:], timeout)
     outs = [l for l in r.stdout.split("\n") if l.strip()]
     if r.returncode != 0 or len(outs) != len(lines):
         raise Infra(
@@ -390,6 +402,8 @@ def write_replay(prop, kind, clause, result, extra=None):
 
 def run_check(prop, tier, seed, replay=None):
     t0 = time.time()
+    if not os.path.isdir(os.path.join(REPO, "cnvlib")):
+        raise Infra(f"VERIF_REPO={REPO} is not a cnvkit source tree")
     setup_repo_path()
     mod = importlib.import_module(f"harness.props.{prop}")
     violations = []  # (clause, replay_path, suffix)
@@ -406,11 +420,22 @@ def run_check(prop, tier, seed, replay=None):
     # 2. build model + driver (needed by everything)
     ok, log = lake_build(["CnvVerif", "Main"])
     model_broken = None
+    fallback_note = None
     if not ok:
         if tinfo.get("changed") or tinfo.get("error"):
-            model_broken = log[-3000:]
+            # the regenerated constants/tables no longer fit the model: a proof obligation is broken.  Fall back to
+            # the committed baseline of the generated files so that the driver and the Lean spec oracle can still
+            # be run on the real code to look for a concrete failing input.
+            from . import translate as tr
+            restored = tr.restore_baseline(os.path.join(LEAN_DIR, "CnvVerif", "Generated"))
+            ok2, log2 = lake_build(["CnvVerif", "Main"])
+            if ok2:
+                fallback_note = {"generated_model_does_not_build": log[-1500:], "restored_baseline_files": restored}
+            else:
+                model_broken = log[-3000:]
         else:
             raise Infra("lake build of the model failed:\n" + log[-3000:])
+    notes["generated_fallback"] = fallback_note
 
     # 3. audit
     hits = grep_forbidden(prop)
@@ -420,7 +445,7 @@ def run_check(prop, tier, seed, replay=None):
         n_obl, n_dis, adetails, build_ok, alog = audit(prop)
     else:
         n_obl, n_dis, adetails, build_ok, alog = (len(theorems_for(prop)["theorems"]), 0, {}, False, model_broken)
-    proof_broken = (n_dis != n_obl) or not build_ok
+    proof_broken = (n_dis != n_obl) or not build_ok or fallback_note is not None
     if proof_broken and not (tinfo.get("changed") or tinfo.get("error")):
         # proofs are broken although the generated files are what was committed: framework bug
         raise Infra("registered theorems do not check on unchanged Generated files:\n"
@@ -567,6 +592,7 @@ def run_check(prop, tier, seed, replay=None):
             "search": search_info,
             "leanchecker": checker_note,
             "translate": tinfo,
+            "generated_fallback": fallback_note,
             "exhaustive": bool(getattr(mod, "EXHAUSTIVE", {}).get(tier, False)),
         },
         "assumptions": list(getattr(mod, "ASSUMPTIONS", [])),
